@@ -6,12 +6,18 @@ from props.cli_gen import Gen, HEADER, SPECIAL_ATOMS
 
 ID = 'C19'
 IMPORTS = ['Cli.Comment', 'Cli.Cli', 'Cli.RunCli']
-THEOREMS = ['C19_comment_every_line', 'C19_comment_lines_content', 'C19_strip_comment_lines',
+from lib.pyrepr_check import cps as _cps, g_cps as _g_cps, printable_table as _printable_table
+THEOREMS = ['C19_comment_every_line', 'C19_comment_lines_content', 'C19_comment_lines_clean', 'C19_strip_comment_lines',
             'C19_debug_only_comments', 'C19_cli_equals_library', 'C19_sources_as_on_disk',
-            'C19_cli_first_failure', 'C19_exit_status', 'C19_missing_source']
+            'C19_cli_first_failure', 'C19_exit_status', 'C19_missing_source',
+            'C19_library_text_clean', 'C19_debug_only_comments_compiler', 'C19_cli_equals_compile_text',
+            'C19_cli_equals_compile_text_debug', 'C19_cli_first_failure_compiler', 'C19_exit_status_compiler']
 RULE = ('cli cases: the real command line (python -m yldprolog.compiler, one subprocess per run) on 1-3 sources '
         '(files and/or `-`) under all 16 combinations of -d/--debug-parser/--debug-generator/--debug-filename, to stdout '
-        'and to -o; comment/strip cases: the text functions on generated messages. Non-trivial: a cli case in which '
+        'and to -o, compared with the model command line (Cli/Cli.v) running over the model compiler (compile_text) evaluated in Coq '
+        'on the same texts: which texts compile, exit status, kind of ending, error message, stdout and output file (exactly, or '
+        'after removing comment lines for runs with parser/generator debugging); comment/strip cases: the text functions on generated '
+        'messages. Non-trivial: a cli case in which '
         'some source contains a quoted atom with a line-break character of str.splitlines or non-ASCII text (so that debug '
         'messages carry it), or in which a source fails to compile; a comment case whose message contains at least two '
         'different kinds of line boundary. Distinct by hash of the case.')
@@ -20,8 +26,11 @@ TRUSTED_BASE = [
     'no axioms: all C19 theorems are closed under the global context',
     'hand-written model Cli/Comment.v (comment_lines, str.splitlines, tokenizer lines, strip) and Cli/Cli.v (main, '
     '_set_debug_options, _open_output_file, _open_input_file, generate header); tied to /repo by this differential run',
-    'the library compiler and the debug messages are universally quantified in the theorems; in the correspondence the '
-    'compiler is instantiated with the table of what compile_prolog_from_string returns for the texts of the case',
+    'the debug messages are universally quantified in the theorems; the library compiler is universally quantified in the first '
+    'group of theorems and is the model compiler Comp/CompileText.v compile_text (shared with C11/C12/C18) in the second; in the '
+    'correspondence the model command line runs over compile_text evaluated in Coq on the texts of the case; from the '
+    'implementation\'s library only: with which exception (CompilerError line/column/message, or another one) a refused text is refused',
+    'str.isprintable of the non-ASCII code points of a case is read from the host Python (the `printable` parameter of the model)',
     'harness: generators, subprocess driver, parser of printed observations; the harness function that removes comment '
     'lines is itself compared with the model function `strip` on every strip case',
     'modelled, not verified: click option parsing and exit statuses (ClickException 1, usage error 2, uncaught exception 1), '
@@ -32,8 +41,9 @@ ASSUMPTIONS = ['the output file is not read back as a later source while output 
                'overlap is: the output file is also the FIRST source, which open(fn,"w") has emptied before it is read)',
                'debug messages contain object addresses, so runs with parser/generator debugging are compared after '
                'removing comment lines; runs with --debug-filename only are compared exactly',
-               'a message with U+0000 gives a comment line that CPython refuses to load (source code cannot contain null '
-               'bytes): the `output parses` oracle skips outputs that contain U+0000 in a comment']
+               'the message of a `program too large` error quotes CPython\'s SyntaxError with the file name given to compile() and a '
+               'line number of the generated text; both are dropped before messages are compared',
+               'lone surrogates in a source are outside the domain (no UTF-8 file form)']
 CASE_TIMEOUT = 300
 COQ_CHUNK = 6
 
@@ -69,7 +79,8 @@ def rand_msg(rng):
         if k < 0.45:
             parts.append(rng.choice(BREAKS))
         elif k < 0.6:
-            parts.append(rng.choice(['import os', 'x = 1', '#', '# c', ' ', '', 'def f():', '  pass', 'é', '日本', '\t', '"""', "'''", '\\']))
+            parts.append(rng.choice(['import os', 'x = 1', '#', '# c', ' ', '', 'def f():', '  pass', 'é', '日本', '\t', '"""', "'''", '\\',
+                                     '\x00', 'a\x00b', '\\0', '\x00\n\x00']))
         elif k < 0.7:
             parts.append(rng.choice(BREAKS) * rng.choice([2, 3]))
         else:
@@ -113,7 +124,8 @@ def gen_cli_case(rng, g):
     fail_at = rng.choice([None, None, None, 0, nsrc - 1, rng.randrange(nsrc)])
     for i in range(nsrc):
         if i == fail_at:
-            k = rng.choice(['syntax', 'syntax', 'head', 'visitor', 'badutf8', 'missing'])
+            k = rng.choice(['syntax', 'syntax', 'syntax', 'head', 'head', 'visitor', 'visitor', 'badutf8', 'badutf8', 'missing', 'missing',
+                            'toolarge', 'bignum'])
         else:
             k = rng.choice(['good', 'good', 'good', 'rich', 'never', 'empty'])
         kinds.append(k)
@@ -131,6 +143,12 @@ def gen_cli_case(rng, g):
             text = _small(g.bad_head)
         elif k == 'visitor':
             text = _small(g.bad_visitor)
+        elif k == 'toolarge':
+            # more nested blocks than CPython compiles: CompilerError at 0:0 raised after the code was generated
+            text = 'ok(a).\np(X) :- %s.\n' % ', '.join(['q(X)'] * rng.choice([21, 25, 30]))
+        elif k == 'bignum':
+            # str(int(numeral)) raises ValueError (not a CompilerError) beyond 4300 digits
+            text = 'ok(a).\np(%s).\n' % ('7' * rng.choice([4301, 4400]))
         else:
             text = None
         use_stdin = stdin is None and k not in ('missing',) and rng.random() < 0.3
@@ -150,7 +168,7 @@ def gen_cli_case(rng, g):
         sources.append('-')        # a second `-` reads an empty stdin
     if rng.random() < 0.12 and len(files) >= 1 and rng.random() < 0.5:
         sources.append(files[0][0])     # the same file twice
-    outfile = rng.choice(['out.py', 'out.py', 'o ut.py', 'é_out.py'])
+    outfile = rng.choice(['out.py', 'out.py', 'out.py', 'o ut.py', 'é_out.py', 'é_out.py', '-'])      # `-o -` is stdout
     if rng.random() < 0.06 and sources[0] != '-' and kinds[0] != 'missing':
         outfile = sources[0]            # the output file is the first source: truncated before it is read
         if sources.count(outfile) > 1:
@@ -161,7 +179,7 @@ def gen_cli_case(rng, g):
             'outfile': outfile, 'modesalt': rng.randrange(2), 'combos': 'all'}
 
 def gen(rng, tier):
-    ncli, ntext = (36, 500) if tier == 'quick' else (700, 6000)
+    ncli, ntext = (28, 400) if tier == 'quick' else (240, 4000)
     g = Gen(rng, special=0.3)
     cli = [gen_cli_case(rng, g) for _ in range(ncli)]
     if tier == 'quick':
@@ -213,6 +231,9 @@ def builtin_corpus():
     cli([['x\ny.pl', 'foo(.\n']], ['x\ny.pl'])
     cli([['a.pl', good], ['b.pl', nl]], ['a.pl', 'b.pl'], outfile='a.pl')   # output file = first source
     cli([['a.pl', ''], ['b.pl', '% c\n']], ['a.pl', 'b.pl', 'a.pl'])
+    cli([['a.pl', good], ['big.pl', 'p :- ' + ', '.join(['q'] * 25) + '.\n']], ['a.pl', 'big.pl'])    # too large: CompilerError at 0:0
+    cli([['a.pl', good], ['num.pl', 'p(' + '1' * 4400 + ').\n']], ['a.pl', 'num.pl', 'a.pl'])      # ValueError: traceback
+    cli([['a.pl', good]], ['a.pl', '-'], stdin=nl, outfile='-')                                       # -o - is stdout
     return L
 
 # ------------------------------------------------------------------ implementation side
@@ -286,7 +307,7 @@ def impl(case):
         m = case['msg']
         c = comment_lines(m)
         return {'comment': c, 'splitlines': m.splitlines(), 'plines': py_plines(c),
-                'tok_ok': ('\x00' in m) or only_comment_tokens(c)}
+                'tok_ok': only_comment_tokens(c), 'compiles': _parses(c), 'dump': _dump(c)}
     if case['kind'] == 'strip':
         t = case['text']
         return {'strip': py_strip(t), 'plines': py_plines(t)}
@@ -319,31 +340,48 @@ def _g_rd(t):
     return 'RBad' if t is None else '(RText %s)' % g_str(t)
 
 def model_expr(case):
+    """cli cases: the model command line (Cli/Cli.v) over the MODEL compiler (Comp/CompileText.v compile_text, evaluated in
+    Coq on the source texts of the case).  From the implementation's library only: how a refused text is refused."""
     if case['kind'] == 'comment':
         return '(run_comment %s)' % g_str(case['msg'])
     if case['kind'] == 'strip':
         return '(run_strip %s)' % g_str(case['text'])
-    tbl = []
-    for t in _texts_of(case):
+    fails = []
+    texts = _texts_of(case)
+    allcps = set()
+    for t in texts:
         r = _library(t)
-        if r[0] == 'ok' and not r[1].startswith(HEADER + '\n'):
-            return None          # reported by the oracle
+        allcps.update(_cps(t))
+        if r[0] == 'ok':
+            continue
         if r[0] == 'err' and not (isinstance(r[1], int) and isinstance(r[2], int) and r[1] >= 0 and r[2] >= 0):
             return None
-        tbl.append(g_pair(g_str(t), _g_cres(r)))
+        fails.append(g_pair(_g_cps(_cps(t)), _g_cres(r)))
+    ptbl = _printable_table(sorted(allcps))
     files = g_list([g_pair(g_str(n), _g_rd(t)) for n, t in case['files']])
     stdin = _g_rd(case['stdin'][1] if case['stdin'][0] == 'text' else None)
     srcs = g_list([g_str(s) for s in case['sources']])
-    return '(run_cli %s %s %s %s %s)' % (g_list(tbl), g_str(case['outfile']), srcs, files, stdin)
+    return '(run_cli_text [%s] %s %s %s %s %s %s)' % ('; '.join('%d%%N' % x for x in ptbl), g_list(fails),
+        g_list([_g_cps(_cps(t)) for t in texts]), g_str(case['outfile']), srcs, files, stdin)
 
 # ------------------------------------------------------------------ judging
 
 def _model_result(mo, mode, dfn):
+    mo = mo[1]
     assert mo[0] == 'cli'
     end, status, stdout, f = mo[1 + (0 if mode == 'stdout' else 2) + (1 if dfn else 0)]
     if f and f[1] == ['same']:
         f = [f[0], mo[1 + (1 if dfn else 0)][2]]      # the text of the stdout run
     return {'end': end, 'status': status, 'stdout': stdout, 'file': (f[1] if f else None), 'fname': (f[0] if f else None)}
+
+_TOO_LARGE = re.compile(r'(program too large for Python: .*) \((.*), line \d+\)$', re.S)
+
+def _norm_msg(msg, case):
+    """the 'program too large' message quotes CPython's SyntaxError, which names the file given to compile() ('<generated>'
+    for the library, the source name for the command line) and a line number of the generated text (which shifts when the
+    `# from <file>` lines of --debug-filename are present): both are dropped before comparing"""
+    m = _TOO_LARGE.search(msg)
+    return msg[:m.start()] + m.group(1) if m else msg
 
 def compare(case, io_, mo):
     if case['kind'] == 'comment':
@@ -360,6 +398,11 @@ def compare(case, io_, mo):
         if io_['plines'] != mo[2]:
             return 'universal-newline lines differ from the model plines'
         return None
+    # the model compiler and the implementation's library must agree on which texts compile
+    for (t, r), mv in zip(io_['lib'], mo[0]):
+        iv = 'ok' if r[0] == 'ok' else ('err' if r[0] == 'err' else 'crash')
+        if iv != mv[0]:
+            return 'library: %s (%s), model compiler: %s, for the text %r' % (iv, r[-1] if iv != 'ok' else 'text', mv[0], t[:200])
     for run in io_['runs']:
         d, p, g, f = run['flags']
         dfn = bool(d or f)
@@ -370,7 +413,7 @@ def compare(case, io_, mo):
             return tag + 'exit status %r, model %r' % (run['status'], m['status'])
         if run['end'][0] != m['end'][0]:
             return tag + 'ends with %r, model %r' % (run['end'][0], m['end'][0])
-        if run['end'][0] == 'error' and run['end'][1] != m['end'][1]:
+        if run['end'][0] == 'error' and _norm_msg(run['end'][1], case) != _norm_msg(m['end'][1], case):
             return tag + 'error message %r, model %r' % (run['end'][1], m['end'][1])
         if m['file'] is None:
             if run['file'] is not None and run['file'] != run['before']:
@@ -396,6 +439,16 @@ def _parses(text):
     except Exception:
         return False
 
+def _dump(text):
+    """ast.dump of the text as a Python module; None if it does not parse"""
+    import ast
+    try:
+        return ast.dump(ast.parse(text))
+    except RecursionError:
+        return 'too deep to dump'
+    except Exception:
+        return None
+
 def oracle(case, io_):
     if case['kind'] == 'comment':
         c = io_['comment']
@@ -405,6 +458,10 @@ def oracle(case, io_):
             return 'a line of the commented message does not start with #'
         if not io_['tok_ok']:
             return "Python's tokenizer sees something else than comments in the commented message"
+        if '\x00' in c or any(ch in l[:-1] for l in io_['plines'] for ch in '\r\n'):
+            return 'the commented message contains a NUL, or a CR / LF inside a line'
+        if not io_['compiles'] or io_['dump'] != _dump(''):
+            return 'the commented message is not an empty Python module (compile / ast.dump)'
         return None
     if case['kind'] == 'strip':
         return None
@@ -430,8 +487,9 @@ def oracle(case, io_):
     missing = any(s != '-' and s not in fsmap for s in case['sources'])
     for run in runs:
         tag = 'flags=%s mode=%s: ' % (''.join(map(str, run['flags'])), run['mode'])
-        out = run['file'] if run['mode'] == 'file' else run['stdout']
-        if run['mode'] == 'file' and run['stdout'] != '':
+        to_file = run['mode'] == 'file' and case['outfile'] != '-'
+        out = run['file'] if to_file else run['stdout']
+        if to_file and run['stdout'] != '':
             return tag + 'wrote to stdout although -o was given'
         if missing:
             if run['status'] == 0:
@@ -451,7 +509,7 @@ def oracle(case, io_):
                 stdin_left = ['text', '']
             else:
                 t = fsmap[s]
-                if run['mode'] == 'file' and s == case['outfile']:
+                if to_file and s == case['outfile']:
                     t = ''
             if t is None:
                 failed = ['crash']
@@ -477,8 +535,12 @@ def oracle(case, io_):
             src_fail = case['sources'][len(expect)]
             if not run['end'][1].startswith(src_fail + pos):
                 return tag + 'error message does not start with file:line:column'
-        if '\x00' not in out and not _parses(out):
-            return tag + 'output does not parse as Python'
+        if not _parses(out):
+            return tag + 'output does not compile as Python (compile(text, .., "exec"))'
+        if '\x00' in out:
+            return tag + 'output contains a NUL character'
+        if any(run['flags']) and _dump(out) != _dump(want):
+            return tag + 'ast.dump of the output differs from ast.dump of the output without debug options'
         # every physical line that is not in the library text is a comment
         extra = [l for l in py_plines(out) if l.startswith('#')]
         if not all(l.startswith('#') for l in extra):
